@@ -78,6 +78,10 @@ def check_source(src, run_patterns=(), globals0=None):
     return model
 
 
+_previous = {}
+POISON = "for vv in arrayNew(1, 2):\n    if vv:\n        continue\n    endif\n    while vv < 3:\n        vv = vv + 1\n        break\n    endwhile\nendfor\n"
+
+
 def plan(tier):
     depth = 2 if tier == 'quick' else 3
     parts = 4 if tier == 'quick' else 16
@@ -130,6 +134,20 @@ def run_shard(ctx, spec):
     def prop(seed, size):
         rnd = random.Random(seed)
         prog, src, globals0, pg = gen_program(rnd, size)
+        if rnd.random() < 0.5:
+            # parse a broken text first (truncated program / injected syntax error): parser state must not survive a failed call
+            # (a different program - the previous case's, or a fixed one with an open for+continue - so that stale state meets fresh input)
+            other = gen_program(random.Random(seed ^ 0x5bd1e995), size)[1] if rnd.random() < 0.6 else POISON
+            lines = other.rstrip('\n').split('\n')
+            cut = rnd.randint(1, len(lines))
+            broken = '\n'.join(lines[:cut] + [rnd.choice(['xx = 1 +* 2', 'if (', "systemLog('a' 'b')", 'endfor', ''])])
+            try:
+                impl.bs.parse_script(broken)
+            except impl.bs.ParserError:
+                pass
+            except Exception as e:  # pylint: disable=broad-except
+                raise Violation('parse_script raised %s on a broken text' % type(e).__name__, {'kind': 'source', 'source': broken, 'patterns': [], 'globals': {}},
+                                'broken-text-host-exception') from e
         try:
             check_source(src, ([True, False, True],), globals0)
         except Violation as v:
